@@ -10,11 +10,11 @@
    set_many ms is idx = idx with positions ms_j replaced by is_j;  operand_ok tr s x = triple x = (M, m, operand index) has
    m < len s, M a well-formed (J, s_m) matrix ((s_m, J) under transpose), J > 0;  outdim = J;
    mm_coef tr L is idx = prod_j M_j[idx_{m_j}, is_j] (conjugate transpose under tr). *)
-From Coq Require Import List Arith ZArith Ring_theory Permutation.
+From Coq Require Import List Arith ZArith Ring_theory Permutation Lia.
 From TLV Require Import Base.Shape Base.PyList Base.Tensor Base.BigSum Model.Base Model.Tenalg
   Proofs.TenalgProofs Proofs.TenalgProofsKR Proofs.TenalgProofsEinsum Proofs.TenalgProofsInner
   Proofs.TenalgProofsOuter Proofs.TenalgProofsSample Proofs.TenalgProofsSort Proofs.TenalgProofsEinsumVec Proofs.TenalgProofsMulti Proofs.TenalgProofsEinsumInner
-  Proofs.TenalgProofsEinsumMttkrp Proofs.TenalgProofsEinsumKR Proofs.TenalgProofsEinsumOuter Proofs.TenalgProofsMultiGen Proofs.TenalgProofsMultiGen2.
+  Proofs.TenalgProofsEinsumMttkrp Proofs.TenalgProofsEinsumKR Proofs.TenalgProofsEinsumOuter Proofs.TenalgProofsMultiGen Proofs.TenalgProofsMultiGen2 Proofs.TenalgProofsMemory.
 Import ListNotations.
 
 Definition ring_of {F} (Op : rops F) := ring_theory (r0 Op) (r1 Op) (radd Op) (rmul Op) (rsub Op) (ropp Op) (@eq F).
@@ -66,11 +66,14 @@ Corollary C02_mode_dot_backends_agree : forall (F : Type) (Op : rops F), ring_of
 Proof. exact @mode_dot_backends_agree. Qed.
 Print Assumptions C02_mode_dot_backends_agree.
 
-(* KR[(i_1..i_n), r] = prod_k A_k[i_k, r] * w_r * mask[(i_1..i_n)], any number of matrices (also a single one), any skip *)
+(* KR[(i_1..i_n), r] = prod_k A_k[i_k, r] * w_r * mask[(i_1..i_n)], any number of matrices (also a single one), any skip;
+   w_ok w R = the weights (if given) have exactly R entries, mask_ok mask n = the mask (if given) has exactly n entries (any
+   shape: the core code reshapes them).  Other sizes: the model mirrors NumPy broadcasting (one entry: a scalar factor;
+   anything else: rejected) - Example C02_khatri_rao_weight_sizes - and is tied to the code by the correspondence only. *)
 Theorem C02_khatri_rao_core : forall (F : Type) (Op : rops F), ring_of Op ->
   forall (Ms : list (tensor F)) (w mask : option (tensor F)) (skip : option nat) (R : nat),
   let Ms' := skipl skip Ms in
-  Ms' <> [] -> mats R Ms' ->
+  Ms' <> [] -> mats R Ms' -> w_ok w R -> mask_ok mask (prod (map nrows Ms')) ->
   exists K, khatri_rao Op Ms w mask skip = Ok K /\ wf K /\ shape K = [prod (map nrows Ms'); R] /\
     forall is_ r, inb (map nrows Ms') is_ -> r < R ->
       get (r0 Op) K [ravel (map nrows Ms') is_; r]
@@ -93,7 +96,7 @@ Print Assumptions C02_kronecker_core.
 Theorem C02_mttkrp_core : forall (F : Type) (Op : rops F), ring_of Op ->
   forall (T : tensor F) (w : option (tensor F)) (fs : list (tensor F)) (k R : nat),
   wf T -> k < ndim T -> 0 < prod (shape T) -> 0 < R ->
-  map nrows fs = shape T -> mats R fs -> 2 <= ndim T ->
+  map nrows fs = shape T -> mats R fs -> 2 <= ndim T -> w_ok w R ->
   exists Mt, mttkrp Op T w fs k = Ok Mt /\ wf Mt /\ shape Mt = [nth k (shape T) 0; R] /\
     forall i r, i < nth k (shape T) 0 -> r < R ->
       get (r0 Op) Mt [i; r] =
@@ -163,11 +166,37 @@ Corollary C02_mttkrp_backends_agree : forall (F : Type) (Op : rops F), ring_of O
 Proof. exact @mttkrp_backends_agree. Qed.
 Print Assumptions C02_mttkrp_backends_agree.
 
-(* einsum backend khatri_rao (any number of matrices, weights, mask, skip_matrix): same entry formula, hence core = einsum *)
+(* memory-efficient MTTKRP (core_tenalg.mttkrp.unfolding_dot_khatri_rao_memory: one multi_mode_dot with the conjugated r-th
+   columns per component, skip = mode, stacked, times conj(weights)): the textbook MTTKRP for every order >= 1, hence the same
+   matrix as the default unfolding_dot_khatri_rao (order >= 2) *)
+Theorem C02_mttkrp_memory : forall (F : Type) (Op : rops F), ring_of Op -> conj_laws Op ->
+  forall (T : tensor F) (w : option (tensor F)) (fs : list (tensor F)) (k R : nat),
+  wf T -> k < ndim T -> 0 < prod (shape T) -> 0 < R -> map nrows fs = shape T -> mats R fs ->
+  (forall w0, w = Some w0 -> wf w0 /\ prod (shape w0) = R) ->
+  exists Mt, mttkrp_memory Op T w fs k = Ok Mt /\ wf Mt /\ shape Mt = [nth k (shape T) 0; R] /\
+    forall i r, i < nth k (shape T) 0 -> r < R ->
+      get (r0 Op) Mt [i; r] =
+      ssum Op (remove_nth k (shape T))
+        (fun ridx => rmul Op (get (r0 Op) T (insert_at k i ridx))
+                             (rconj Op (rmul Op (kr_entry Op (remove_nth k fs) ridx r) (wv Op w r)))).
+Proof. exact @mttkrp_memory_spec. Qed.
+Print Assumptions C02_mttkrp_memory.
+
+Corollary C02_mttkrp_memory_agrees_with_default : forall (F : Type) (Op : rops F), ring_of Op -> conj_laws Op ->
+  forall (T : tensor F) (w : option (tensor F)) (fs : list (tensor F)) (k R : nat),
+  wf T -> k < ndim T -> 0 < prod (shape T) -> 0 < R -> map nrows fs = shape T -> mats R fs -> 2 <= ndim T ->
+  (forall w0, w = Some w0 -> wf w0 /\ prod (shape w0) = R) ->
+  mttkrp_memory Op T w fs k = mttkrp Op T w fs k.
+Proof. exact @mttkrp_memory_agree. Qed.
+Print Assumptions C02_mttkrp_memory_agrees_with_default.
+
+(* einsum backend khatri_rao (any number of matrices, skip_matrix; weights a length-R vector, mask with one axis per matrix and
+   the row counts as shape, as np.einsum requires): same entry formula, hence core = einsum *)
 Theorem C02_khatri_rao_einsum : forall (F : Type) (Op : rops F), ring_of Op ->
   forall (Ms : list (tensor F)) (w mask : option (tensor F)) (skip : option nat) (R : nat),
   let Ms' := skipl skip Ms in
   Ms' <> [] -> mats R Ms' -> 0 < R -> (forall w0, w = Some w0 -> shape w0 = [R]) ->
+  (forall m0, mask = Some m0 -> shape m0 = map nrows Ms') ->
   exists K, khatri_rao_e Op Ms w mask skip = Ok K /\ wf K /\ shape K = [prod (map nrows Ms'); R] /\
     forall is_ r, inb (map nrows Ms') is_ -> r < R ->
       get (r0 Op) K [ravel (map nrows Ms') is_; r]
@@ -179,6 +208,7 @@ Corollary C02_khatri_rao_backends_agree : forall (F : Type) (Op : rops F), ring_
   forall (Ms : list (tensor F)) (w mask : option (tensor F)) (skip : option nat) (R : nat),
   let Ms' := skipl skip Ms in
   Ms' <> [] -> mats R Ms' -> 0 < R -> (forall w0, w = Some w0 -> shape w0 = [R]) ->
+  (forall m0, mask = Some m0 -> shape m0 = map nrows Ms') ->
   khatri_rao Op Ms w mask skip = khatri_rao_e Op Ms w mask skip.
 Proof. exact @khatri_rao_backends_agree. Qed.
 Print Assumptions C02_khatri_rao_backends_agree.
@@ -358,12 +388,29 @@ Example C02_nonvacuous_khatri_rao :
   let B : tensor Z := mk [1; 2] [5; 6]%Z in
   let C : tensor Z := mk [2; 2] [1; 0; -1; 2]%Z in
   let w : tensor Z := mk [2] [2; 3]%Z in
-  skipl (Some 1) [A; B; C] <> [] /\ mats 2 (skipl (Some 1) [A; B; C]) /\
+  skipl (Some 1) [A; B; C] <> [] /\ mats 2 (skipl (Some 1) [A; B; C]) /\ w_ok (Some w) 2 /\
+  mask_ok (@None (tensor Z)) (prod (map nrows (skipl (Some 1) [A; B; C]))) /\
   khatri_rao ZR [A; B; C] (Some w) None (Some 1) = Ok (mk [4; 2] [2; 0; -2; 12; 6; 0; -6; 24]%Z).
 Proof.
-  cbv zeta. split; [discriminate|]. split; [|vm_compute; reflexivity].
-  repeat constructor.
+  cbv zeta. split; [discriminate|]. split; [repeat constructor|].
+  split; [intros w0 E; injection E as <-; reflexivity|]. split; [intros m0 E; discriminate E|]. vm_compute; reflexivity.
 Qed.
+
+(* weights / mask of other sizes: one entry is broadcast as a scalar, every other size is rejected (both backends, as NumPy does) *)
+Example C02_khatri_rao_weight_sizes :
+  let A : tensor Z := mk [2; 2] [1; 2; 3; 4]%Z in
+  let B : tensor Z := mk [3; 2] [1; 2; 3; 4; 5; 6]%Z in
+  khatri_rao ZR [A; B] (Some (mk [1] [5]%Z)) None None = Ok (mk [6; 2] [5; 20; 15; 40; 25; 60; 15; 40; 45; 80; 75; 120]%Z) /\
+  khatri_rao_e ZR [A; B] (Some (mk [1] [5]%Z)) None None = khatri_rao ZR [A; B] (Some (mk [1] [5]%Z)) None None /\
+  khatri_rao ZR [A; B] (Some (mk [3] [1; 2; 3]%Z)) None None = Err /\
+  khatri_rao_e ZR [A; B] (Some (mk [3] [1; 2; 3]%Z)) None None = Err /\
+  khatri_rao ZR [A; B] None (Some (mk [2] [1; 1]%Z)) None = Err /\
+  khatri_rao_e ZR [A; B] None (Some (mk [2] [1; 1]%Z)) None = Err /\
+  khatri_rao ZR [A] (Some (mk [3] [1; 2; 3]%Z)) None None = Err /\
+  mttkrp ZR (mk [2; 3] [1; 2; 3; 4; 5; 6]%Z) (Some (mk [3] [1; 2; 3]%Z)) [A; B] 0 = Err /\
+  mttkrp_e ZR (mk [2; 3] [1; 2; 3; 4; 5; 6]%Z) (Some (mk [3] [1; 2; 3]%Z)) [A; B] 0 = Err /\
+  mttkrp_memory ZR (mk [2; 3] [1; 2; 3; 4; 5; 6]%Z) (Some (mk [3] [1; 2; 3]%Z)) [A; B] 0 = Err.
+Proof. cbv zeta. repeat split; vm_compute; reflexivity. Qed.
 
 (* non-vacuity of C02_multi_mode_dot_matrices_closed_form: operands listed out of mode order, one skipped, conjugate transpose *)
 Example C02_nonvacuous_multi_mode_dot :
@@ -387,10 +434,19 @@ Qed.
 Example C02_nonvacuous_sample_moment :
   let A : tensor Z := mk [2; 2] [1; 2; 3; 4]%Z in
   let B : tensor Z := mk [3; 2] [5; 6; 7; 8; 9; 10]%Z in
+  skipl None [A; B] <> [] /\ mats 2 (skipl None [A; B]) /\ length [[1; 0]; [2; 1]] = length (skipl None [A; B]) /\
+  Forall (fun l => length l = 2) [[1; 0]; [2; 1]] /\
+  (forall s, s < 2 -> inb (map nrows (skipl None [A; B])) (tuple_at [[1; 0]; [2; 1]] s)) /\
+  shape B = 3 :: [2] /\ Forall (inb [2]) [[0]; [1]] /\
   sample_kr_indices [A; B] None [[1; 0]; [2; 1]] 2 = [5; 1] /\
   sample_kr_rows ZR [A; B] None [[1; 0]; [2; 1]] 2 = mk [2; 2] [27; 40; 7; 16]%Z /\
   higher_order_moment_sum ZR B 2 = Ok (mk [2; 2] [155; 176; 176; 200]%Z).
-Proof. cbv zeta. repeat split; vm_compute; reflexivity. Qed.
+Proof.
+  cbv zeta. split; [discriminate|]. split; [repeat constructor|]. split; [reflexivity|]. split; [repeat constructor|].
+  split; [intros [|[|s]] Hs; [vm_compute; auto with arith | vm_compute; auto with arith | lia]|].
+  split; [reflexivity|]. split; [repeat constructor; auto with arith|].
+  repeat split; vm_compute; reflexivity.
+Qed.
 
 (* non-vacuity of C02_multi_mode_dot_core: a vector between two matrices, listed out of mode order, conjugate transpose *)
 Example C02_nonvacuous_multi_mode_dot_mixed :
@@ -411,4 +467,24 @@ Proof.
   all: unfold operand_fits; cbn [t_mode fst snd shape length nth]; split; [auto with arith | split; [vm_compute; reflexivity |]].
   all: try (left; reflexivity).
   all: right; eexists; eexists; repeat split; try reflexivity; auto with arith.
+Qed.
+
+(* non-vacuity of the MTTKRP theorems: complex weights, three variants, hypotheses discharged jointly *)
+Example C02_nonvacuous_mttkrp :
+  let T : tensor GI := mk [2; 2] [(1, 1); (0, 2); (-1, 0); (3, -1)]%Z in
+  let A : tensor GI := mk [2; 2] [(1, 0); (0, 1); (2, 0); (0, -1)]%Z in
+  let B : tensor GI := mk [2; 2] [(0, 1); (1, 1); (1, 0); (2, -1)]%Z in
+  let w : tensor GI := mk [2] [(1, 1); (0, -2)]%Z in
+  wf T /\ 1 < ndim T /\ 0 < prod (shape T) /\ map nrows [A; B] = shape T /\ mats 2 [A; B] /\ 2 <= ndim T /\
+  (forall w0, Some w = Some w0 -> wf w0 /\ shape w0 = [2]) /\ w_ok (Some w) 2 /\
+  mttkrp GR T (Some w) [A; B] 1 = mttkrp_e GR T (Some w) [A; B] 1 /\
+  mttkrp_memory GR T (Some w) [A; B] 1 = mttkrp GR T (Some w) [A; B] 1 /\
+  exists M, mttkrp GR T (Some w) [A; B] 1 = Ok M /\ shape M = [2; 2].
+Proof.
+  cbv zeta. split; [vm_compute; reflexivity|]. split; [vm_compute; auto with arith|]. split; [vm_compute; auto with arith|].
+  split; [reflexivity|]. split; [repeat constructor|]. split; [vm_compute; auto with arith|].
+  split; [intros w0 E; injection E as <-; split; [vm_compute|]; reflexivity|].
+  split; [intros w0 E; injection E as <-; reflexivity|].
+  split; [vm_compute; reflexivity|]. split; [vm_compute; reflexivity|].
+  eexists. split; [vm_compute; reflexivity | reflexivity].
 Qed.
